@@ -230,9 +230,14 @@ def evaluate_z3_re_range(
     if expr.decl().name() != "re.range":
         return Nothing
 
-    return Some(
-        construct_result(lambda args: f"[{args[0]}-{args[1]}]", children_results)
-    )
+    def constructor(args):
+        lo, hi = args
+        if len(lo) != 1 or len(hi) != 1 or lo > hi:
+            # SMT-LIB: the empty language
+            return "(?!)"
+        return f"[{re.escape(lo)}-{re.escape(hi)}]"
+
+    return Some(construct_result(constructor, children_results))
 
 
 def evaluate_z3_re_loop(
